@@ -492,16 +492,38 @@ def cli_conc(req):
 
 
 def cli_natural(req):
-    """faults that need no injection: a project file that is not valid UTF-8 (Latin-1 comment).
+    """faults that need no injection: a project file that is not valid UTF-8 (Latin-1 comment), and a report nobody reads.
     file channel: the text-mode read in create_auto_report_file fails (= fault point copyRead);
     stdin channel: sys.stdin decodes with surrogateescape, writing the temp copy fails (= stdinWrite)."""
     k = req["k"]
     res = {}
-    for channel in ("file", "stdin"):
+    for channel in ("file", "stdin", "gone", "gone-stdin"):
         root = tempfile.mkdtemp(prefix="spverif-nat-", dir=SCRATCH)
         try:
             for d in ("in", "cwd", "tmp", "abs"):
                 os.makedirs(os.path.join(root, d))
+            if channel.startswith("gone"):
+                # a valid project whose report nobody reads: stdout is a pipe whose read end is closed before the run
+                # (= fault point echo: the write of the report fails)
+                chan = "stdin" if channel == "gone-stdin" else "file"
+                data = base_project(k).encode("utf-8")
+                in_path = os.path.join(root, "in", "gone%d.tjp" % k)
+                if chan == "file":
+                    with open(in_path, "wb") as f:
+                        f.write(data)
+                before = listing(root)
+                rd, wr = os.pipe()
+                os.close(rd)
+                try:
+                    r = subprocess.run(argv_for(chan, req.get("fmt", "json"), "-", in_path, True),
+                                       input=(data if chan == "stdin" else b""), stdout=wr, stderr=subprocess.PIPE,
+                                       cwd=os.path.join(root, "cwd"), env=child_env(os.path.join(root, "tmp")), timeout=RUN_TIMEOUT)
+                finally:
+                    os.close(wr)
+                left, new = leftover_classes(before, listing(root))
+                res[channel] = {"line": "exit %d left %s" % (r.returncode, ",".join(left) or "-"), "new": new[:4],
+                                "stdout_bytes": 0, "stderr": r.stderr[-200:].decode("utf-8", "replace")}
+                continue
             data = base_project(k).encode("utf-8") + b"# caf\xe9 au lait\n"
             in_path = os.path.join(root, "in", "latin%d.tjp" % k)
             if channel == "file":
